@@ -1,11 +1,16 @@
 #!/bin/bash
-# usage: tools/mut.sh <patchfile> <ID> [tier]   -- apply patch to /repo, run check, revert
+# usage: tools/mut.sh <patchfile> <ID> [tier]
+# Applies the patch in a scratch worktree of /repo HEAD (never /repo itself), runs the check
+# against it via LIQUID_REPO, removes the worktree.
 set -u
-P="$1"; ID="$2"; TIER="${3:-quick}"
-cd /repo || exit 2
-if ! git diff --quiet; then echo "repo dirty"; exit 2; fi
-git apply "$P" || { echo "patch does not apply"; exit 2; }
-cd /verif; ./check "$ID" "$TIER" | grep -E "^\[|VIOLATION|KNOWN|HARNESS|signature" | head -${MUT_LINES:-8}
-rc=${PIPESTATUS[0]}
-cd /repo; git checkout -q -- . ; git status --short | head -3
-echo "exit=$rc"
+P="$(readlink -f "$1")"; ID="$2"; TIER="${3:-quick}"
+WT="/tmp/wt_mut_$$"
+git -C /repo worktree add -q --detach "$WT" HEAD || exit 2
+trap 'git -C /repo worktree remove --force "$WT" >/dev/null 2>&1' EXIT
+( cd "$WT" && git apply "$P" ) || { echo "patch does not apply"; exit 2; }
+if [ "${MUT_TESTS:-0}" = "1" ]; then
+  ( cd "$WT" && PYTHONPATH="$WT" /venv/bin/python -m pytest -q -p no:cacheprovider --timeout=900 --continue-on-collection-errors 2>&1 | tail -1 )
+fi
+cd /verif
+LIQUID_REPO="$WT" ./check "$ID" "$TIER" | grep -E "^\[|VIOLATION|KNOWN|HARNESS|signature" | head -${MUT_LINES:-8}
+echo "exit=${PIPESTATUS[0]}"
